@@ -6,6 +6,7 @@ import (
 	"encoding/binary"
 	"encoding/hex"
 	"fmt"
+	"github.com/cosmos/cosmos-sdk/types/query"
 	"math/big"
 	"regexp"
 	"sort"
@@ -748,11 +749,25 @@ func (w *W) query(ctx sdk.Context, q Query) (v cq.V, failed bool) {
 		}
 		return cq.VB(r.IsPaused), false
 	case "PausedCrossChains":
-		r, err := fq.PausedCrossChains(ctx, &forwardertypes.QueryPausedCrossChainsRequest{ProtocolId: q.ID})
-		if err != nil {
-			return cq.VL(), true
+		// the listing is paginated (100 per page by default): follow the next keys to the end
+		var all []string
+		var key []byte
+		for page := 0; page < 64; page++ {
+			req := &forwardertypes.QueryPausedCrossChainsRequest{ProtocolId: q.ID}
+			if key != nil {
+				req.Pagination = &query.PageRequest{Key: key}
+			}
+			r, err := fq.PausedCrossChains(ctx, req)
+			if err != nil {
+				return cq.VL(), true
+			}
+			all = append(all, r.CounterpartyIds...)
+			if r.Pagination == nil || len(r.Pagination.NextKey) == 0 {
+				break
+			}
+			key = r.Pagination.NextKey
 		}
-		return cq.VStrs(r.CounterpartyIds), false
+		return cq.VStrs(all), false
 	case "IsActionPaused":
 		r, err := eq.IsActionPaused(ctx, &executortypes.QueryIsActionPausedRequest{ActionId: q.ID})
 		if err != nil {
